@@ -19,17 +19,20 @@ RuleSame(p, n) == PathSame(p.path, n.path) /\ TermSame(p.cond, n.cond) /\ p.cast
 Judge(e) ==
   CASE e.op = "parse_cond" -> LET r == ParseCond(e.spec) IN [st |-> r.st, same |-> r.st = "ok" /\ TermSame(e.proj, r.t)]
     [] e.op = "parse_part" -> LET r == ParsePart(e.spec) IN [st |-> r.st, same |-> r.st = "ok" /\ PartSame(e.ppart, r.t)]
-    [] e.op = "parse_parts" -> LET r == ParsePathParts(e.spec.xs) IN [st |-> r.st, same |-> r.st = "ok" /\ PathSame(e.ppath, r.t)]
+    [] e.op = "parse_parts" -> IF e.spec.k # "list" THEN [st |-> "U", same |-> FALSE] ELSE
+                               LET r == ParsePathParts(e.spec.xs) IN [st |-> r.st, same |-> r.st = "ok" /\ PathSame(e.ppath, r.t)]
     [] e.op = "parse_path" -> LET r == ParsePath(e.spec) IN [st |-> r.st, same |-> r.st = "ok" /\ PathSame(e.ppath, r.t)]
-    [] e.op = "from_str" -> LET r == FromStr(e.spec.xs, e.delim) IN [st |-> r.st, same |-> r.st = "ok" /\ PathSame(e.ppath, r.t)]
+    [] e.op = "from_str" -> IF e.spec.k # "str" THEN [st |-> "U", same |-> FALSE] ELSE
+                            LET r == FromStr(e.spec.xs, e.delim) IN [st |-> r.st, same |-> r.st = "ok" /\ PathSame(e.ppath, r.t)]
     [] e.op = "parse_rule" -> LET r == ParseRule(e.spec) IN
-                              [st |-> r.st, same |-> r.st = "ok" /\ RuleSame(e.prule, r.t) /\ Same(e.pdoc, r.doc)]
+                              [st |-> r.st, same |-> r.st = "ok" /\ RuleSame(e.prule, r.t) /\ SameU(e.pdoc, r.doc)]
     [] e.op = "parse_schema" ->
+         IF e.spec.k # "list" THEN [st |-> "U", same |-> FALSE] ELSE
          LET r == ParseRules(e.spec.xs) IN
          [st |-> r.st,
           same |-> r.st = "ok" /\ LET o == StableOrder(r.t) IN
                    /\ Len(e.prules) = Len(o)
-                   /\ \A j \in 1..Len(o) : RuleSame(e.prules[j], r.t[o[j]]) /\ Same(e.pdocs[j], r.docs[o[j]])]
+                   /\ \A j \in 1..Len(o) : RuleSame(e.prules[j], r.t[o[j]]) /\ SameU(e.pdocs[j], r.docs[o[j]])]
 
 Clauses(e) ==
   LET j == Judge(e)  ok == e.outcome = "ok" IN
